@@ -131,3 +131,11 @@ func VerifInstanceAlgo(s *SecureChannel, channelID, tokenID uint32) *uapolicy.En
 
 // VerifSetTime replaces the channel's clock (used for token creation timestamps).
 func VerifSetTime(s *SecureChannel, f func() time.Time) { s.time = f }
+
+// VerifSetRequestID sets the request id counter of the channel (the next
+// request gets n+1), to reach a wrap-around onto ids that are still pending.
+func VerifSetRequestID(s *SecureChannel, n uint32) {
+	s.requestIDMu.Lock()
+	s.requestID = n
+	s.requestIDMu.Unlock()
+}
